@@ -40,6 +40,19 @@ func genSpec(rng *rand.Rand, id int) Spec {
 		WriteTimeout: pick(rng, []int{300, 600}), Hammer: rng.IntN(5) < 2, During: rng.IntN(2) == 0,
 		SlowCbUs: pick(rng, []int{0, 0, 40, 250})}
 	r := rng.IntN(100)
+	if rng.IntN(60) == 0 {
+		// Server.Start() failing half way: what had been opened is closed again
+		sp.Target, sp.Peers = "startfail", nil
+		switch rng.IntN(3) {
+		case 0:
+			sp.SrvListenFail = 1
+		case 1:
+			sp.SrvListenFail = 2
+		default:
+			sp.SrvTCPFail = true
+		}
+		return sp
+	}
 	switch {
 	case r < 45:
 		sp.Target = "server"
@@ -143,6 +156,24 @@ func genSpec(rng *rand.Rand, id int) Spec {
 			sp.ClosePoint = pick(rng, []int{StepPlay, StepFlow, StepFlow, StepFlow2})
 			sp.Hammer = true
 			sp.DelayUs = 2000 + rng.IntN(sp.WriteTimeout*1000+200000)
+		}
+	}
+	// sockets opened on retry / fallback paths: busy RTCP ports while the client looks for a port pair,
+	// explicit ports with a busy RTCP port, a server listener that fails after others were opened
+	hasUDP := false
+	for _, p := range sp.Peers {
+		if p.Kind == "client" && (p.Proto == "udp" || p.Proto == "auto") {
+			hasUDP = true
+		}
+	}
+	if hasUDP && rng.IntN(3) == 0 {
+		switch rng.IntN(3) {
+		case 0:
+			sp.UDPCollide = 1 + rng.IntN(3)
+		case 1:
+			sp.UDPBlockers = 3 + rng.IntN(3)
+		default:
+			sp.ExplicitBusy = true
 		}
 	}
 	return sp
@@ -288,6 +319,32 @@ func sweep(rng *rand.Rand) []Spec {
 				id++
 			}
 		}
+	}
+	// busy RTCP ports / failing listeners: every socket opened on the way must be closed again
+	for _, target := range []string{"client", "server"} {
+		for _, mode := range []string{"play", "record"} {
+			for _, v := range []Spec{{UDPCollide: 1}, {UDPCollide: 3}, {UDPBlockers: 5}, {ExplicitBusy: true}} {
+				for _, cp := range []int{StepSetup1, StepFlow} {
+					sp := v
+					sp.ID, sp.Target, sp.ClosePoint, sp.During = id, target, cp, cp == StepFlow
+					sp.Procs, sp.WriteTimeout, sp.Seed, sp.Noise = pick(rng, []int{1, 2, 4, 8}), 400, rng.Uint64(), rng.IntN(3)
+					sp.Peers = []PeerSpec{{Kind: "client", Mode: mode, Proto: "udp"}}
+					if target == "client" {
+						sp.ServerKind = "real"
+					} else {
+						sp.Peers = append(sp.Peers, PeerSpec{Kind: "client", Mode: mode, Proto: "udp", Park: StepFlow})
+					}
+					out = append(out, sp)
+					id++
+				}
+			}
+		}
+	}
+	for _, v := range []Spec{{SrvListenFail: 1}, {SrvListenFail: 2}, {SrvTCPFail: true}} {
+		sp := v
+		sp.ID, sp.Target, sp.Procs, sp.WriteTimeout, sp.Seed = id, "startfail", 2, 400, rng.Uint64()
+		out = append(out, sp)
+		id++
 	}
 	// the client's internal reset paths, Close at every later step
 	for _, v := range []Spec{{ServerKind: "real", Blackhole: true}, {ServerKind: "script", ScriptSetup: "udp-silent"},
@@ -750,7 +807,7 @@ func Run(ctx *corr.Ctx) {
 		for _, f := range []struct {
 			on   bool
 			name string
-		}{{sp.Hammer, "with:hammer"}, {sp.Joiner, "with:joiner"}, {sp.PeerTeardown, "with:peer-teardown"}, {sp.ServerKind == "stall", "with:stalled-server"}, {sp.ServerKind == "mute", "with:mute-server"}, {sp.ServerKind == "script" && len(sp.Burst) > 0, "with:script-server-burst"}, {sp.Blackhole, "with:udp-blackhole-auto-switch"}, {sp.ScriptSetup != "" && sp.Peers[0].Proto == "auto", "with:script-setup-" + sp.ScriptSetup}, {sp.Redirect, "with:redirect"}, {sp.SlowCbUs > 0, "with:slow-callbacks"}} {
+		}{{sp.Hammer, "with:hammer"}, {sp.Joiner, "with:joiner"}, {sp.PeerTeardown, "with:peer-teardown"}, {sp.ServerKind == "stall", "with:stalled-server"}, {sp.ServerKind == "mute", "with:mute-server"}, {sp.ServerKind == "script" && len(sp.Burst) > 0, "with:script-server-burst"}, {sp.Blackhole, "with:udp-blackhole-auto-switch"}, {sp.ScriptSetup != "" && sp.Peers[0].Proto == "auto", "with:script-setup-" + sp.ScriptSetup}, {sp.Redirect, "with:redirect"}, {sp.UDPCollide > 0, "with:udp-rtcp-port-busy-injected"}, {sp.UDPBlockers > 0, "with:udp-odd-ports-occupied"}, {sp.ExplicitBusy, "with:explicit-ports-rtcp-busy"}, {sp.SrvListenFail > 0 || sp.SrvTCPFail, "with:server-listener-failure"}, {sp.SlowCbUs > 0, "with:slow-callbacks"}} {
 			if f.on {
 				ctx.Dist(f.name)
 			}
@@ -761,6 +818,11 @@ func Run(ctx *corr.Ctx) {
 			}
 		}
 		ctx.Dist(fmt.Sprintf("peers:%d", len(sp.Peers)))
+		if oc.Sockets[1] == oc.Sockets[0] {
+			ctx.Dist("fd-ledger:sockets-after==before")
+		} else {
+			ctx.Dist("fd-ledger:sockets-differ")
+		}
 		switch {
 		case oc.CloseMs < 5:
 			ctx.Dist("close-latency:<5ms")
